@@ -1264,9 +1264,10 @@ pub mod conc {
                 entries.push((c, (a as char).to_string()));
             }
         }
-        let t_full = 2 + rng.below(3);
+        let max_t = crate::c14::miri_scenario::MAX_THREADS.load(Ordering::Relaxed).max(4);
+        let t_full = if max_t > 4 && rng.chance(1, 3) { 5 + rng.below(max_t - 4) } else { 2 + rng.below(3) };
         let mut threads = Vec::new();
-        for _ in 0..4 {
+        for _ in 0..max_t {
             let k = ops_override.unwrap_or(3 + rng.below(4)).max(1).min(8);
             let mut qs = Vec::new();
             for _ in 0..k {
@@ -1290,7 +1291,7 @@ pub mod conc {
             }
             threads.push(qs);
         }
-        threads.truncate(threads_override.unwrap_or(t_full).max(1).min(4));
+        threads.truncate(threads_override.unwrap_or(t_full).max(1).min(max_t));
         Plan { codec, entries, threads }
     }
 
